@@ -22,6 +22,55 @@ pub fn error_variant(e: &trust_runtime::error::RuntimeError) -> String {
 /// Compile and run `cycles` scan cycles. `Err` = rejected by the compiler (not a case).
 /// Execution stops after the first faulting / panicking cycle.
 pub fn run_text(text: &str, cycles: usize) -> Result<Vec<CycleObs>, String> {
+    run_text_inputs(text, cycles, &[])
+}
+
+/// Runtime value of a corpus value (the variable's declared type).
+pub fn v_to_value(v: &V) -> trust_runtime::value::Value {
+    use trust_runtime::value::Value as RV;
+    match *v {
+        V::B(b) => RV::Bool(b),
+        V::I(Ty::SInt, x) => RV::SInt(x as i8),
+        V::I(Ty::Int, x) => RV::Int(x as i16),
+        V::I(Ty::DInt, x) => RV::DInt(x as i32),
+        V::I(Ty::LInt, x) => RV::LInt(x as i64),
+        V::I(Ty::USInt, x) => RV::USInt(x as u8),
+        V::I(Ty::UInt, x) => RV::UInt(x as u16),
+        V::I(Ty::UDInt, x) => RV::UDInt(x as u32),
+        V::I(_, x) => RV::ULInt(x as u64),
+        V::R(f) => RV::Real(f),
+        V::L(f) => RV::LReal(f),
+        V::Bits(Ty::Byte, x) => RV::Byte(x as u8),
+        V::Bits(Ty::Word, x) => RV::Word(x as u16),
+        V::Bits(Ty::DWord, x) => RV::DWord(x as u32),
+        V::Bits(_, x) => RV::LWord(x),
+        V::T(ns) => RV::LInt(ns),
+    }
+}
+
+/// The raw cell an I/O driver would put into the image for `v` at `addr` (two's complement /
+/// IEEE bits of the variable's declared type, cell size from the address letter).
+pub fn v_to_cell(addr: &str, v: &V) -> trust_runtime::value::Value {
+    use trust_runtime::value::Value as RV;
+    let bits: u64 = match *v {
+        V::B(b) => return RV::Bool(b),
+        V::I(_, x) => x as i64 as u64,
+        V::R(f) => f.to_bits() as u64,
+        V::L(f) => f.to_bits(),
+        V::Bits(_, x) => x,
+        V::T(ns) => ns as u64,
+    };
+    match addr.chars().nth(2) {
+        Some('B') => RV::Byte(bits as u8),
+        Some('W') => RV::Word(bits as u16),
+        Some('D') => RV::DWord(bits as u32),
+        _ => RV::LWord(bits),
+    }
+}
+
+/// Like `run_text`; before cycle k the values `inputs[k]` = (direct address, value) are written
+/// into the input image through the public direct-I/O API (what an I/O driver does).
+pub fn run_text_inputs(text: &str, cycles: usize, inputs: &[Vec<(String, trust_runtime::value::Value)>]) -> Result<Vec<CycleObs>, String> {
     let mut h = match crate::fw::catch(|| TestHarness::from_source(text)) {
         Ok(Ok(h)) => h,
         Ok(Err(e)) => return Err(e.to_string()),
@@ -30,7 +79,15 @@ pub fn run_text(text: &str, cycles: usize) -> Result<Vec<CycleObs>, String> {
         }
     };
     let mut out = Vec::new();
-    for _ in 0..cycles {
+    for k in 0..cycles {
+        if let Some(ins) = inputs.get(k) {
+            for (addr, value) in ins {
+                if let Err(e) = h.set_direct_input(addr, value.clone()) {
+                    // the harness could not deliver the input: not a verdict about the subject
+                    return Err(format!("harness: input write {addr} refused: {e:?}"));
+                }
+            }
+        }
         h.runtime_mut()
             .set_execution_deadline(Some(std::time::Instant::now() + std::time::Duration::from_secs(8)));
         let r = crate::fw::catch(|| h.cycle());
@@ -85,6 +142,18 @@ pub struct Case {
 }
 
 impl Case {
+    /// per cycle: (direct address, value) pairs of the input trace
+    pub fn input_writes(&self) -> Vec<Vec<(String, V)>> {
+        self.prog
+            .inputs
+            .iter()
+            .map(|cyc| {
+                cyc.iter()
+                    .filter_map(|(n, v)| self.prog.at.iter().find(|(m, _)| m == n).map(|(_, a)| (a.clone(), *v)))
+                    .collect()
+            })
+            .collect()
+    }
     pub fn text(&self) -> String {
         match &self.raw {
             Some(t) => t.clone(),
@@ -164,7 +233,13 @@ pub fn tag_violations(decl: &BTreeMap<String, Ty>, dump: &BTreeMap<String, Strin
 pub fn reference_run(p: &Prog, cycles: usize) -> Vec<Option<(String, BTreeMap<String, Option<String>>)>> {
     let mut env = refsem::initial_env(p);
     let mut out = Vec::new();
-    for _ in 0..cycles {
+    for k in 0..cycles {
+        if let Some(ins) = p.inputs.get(k) {
+            // the input image is latched into the located variables at the start of the cycle
+            for (name, v) in ins {
+                env.insert(name.clone(), refsem::Val::S(*v));
+            }
+        }
         let mut it = refsem::Interp::new(p);
         match it.cycle(&mut env) {
             Ok(()) => out.push(Some(("ok".to_string(), refsem::flatten(&env)))),
